@@ -449,6 +449,29 @@ func main() {
 		strings.Contains(src(gc), "return members[0]") && strings.Contains(src(gm), "members[i].Birthdate < members[j].Birthdate")
 	addBool("only_oldest_member_computes_and_receivers_verify_sender", coord, "updateRouting runs on the coordinator only (oldest member by birthdate), receivers reject a table whose sender is not their coordinator")
 
+	// ---- structural facts: critical sections of writes, steps of a read (C01)
+	getGo := parse("internal/dmap/get.go")
+	poc := funcDecl(putGo, "DMap", "putOnCluster")
+	dkey := funcDecl(delGo, "DMap", "deleteKey")
+	doc := funcDecl(delGo, "DMap", "deleteOnCluster")
+	sections := poc != nil && dkey != nil && doc != nil &&
+		ordered(src(poc), "dm.loadOrCreateLockedFragment(part)", "defer f.Unlock()", "dm.checkPutConditions(e)", "dm.syncPutOnCluster(e, nt)") &&
+		func() bool {
+			fragGo := parse("internal/dmap/fragment.go")
+			lf := funcDecl(fragGo, "DMap", "loadOrCreateLockedFragment")
+			// the lock is taken, then the fragment is checked to be still alive (not wiped by the janitor)
+			return lf != nil && ordered(src(lf), "dm.loadOrCreateFragment(part)", "f.Lock()", "<-f.ctx.Done()", "f.Unlock()", "continue", "return f, nil")
+		}() &&
+		ordered(src(dkey), "f.Lock()", "defer f.Unlock()", "dm.deleteOnCluster(hkey, key, f)") &&
+		ordered(src(doc), "dm.deleteOnOtherOwners(hkey, key)", "f.storage.Delete(hkey)")
+	addBool("write_sections_hold_fragment_lock", sections, "putOnCluster and deleteKey hold the fragment's write lock from the condition check to the local write / delete; deleteOnCluster removes the other copies before the local one")
+	lot := funcDecl(getGo, "DMap", "lookupOnThisNode")
+	goc := funcDecl(getGo, "DMap", "getOnCluster")
+	reads := lot != nil && goc != nil &&
+		ordered(src(lot), "f.RLock()", "defer f.RUnlock()", "f.storage.Get(hkey)") &&
+		ordered(src(goc), "dm.lookupOnOwners(hkey, key)", "dm.lookupOnReplicas(hkey, key)", "dm.sanitizeAndSortVersions(versions)")
+	addBool("get_reads_owner_under_read_lock_then_replicas", reads, "a Get reads the owner's copy under the fragment's read lock, then asks the replica owners, then picks among the gathered versions")
+
 	// ---- structural facts: pub/sub (C14)
 	psGo := parse("internal/pubsub/pubsub.go")
 	pub := funcDecl(psGo, "PubSub", "Publish")
